@@ -118,5 +118,10 @@ theorem runC_go (conj : K → K) (prm : Params K) (ip : Vec K → Vec K → K) (
        (finalC conj prm ip sqrt A P ws f x0 nf).x, (finalC conj prm ip sqrt A P ws f x0 nf).w) := by
   simp only [runC, h, finalC, epsTol]
 
+theorem finalC_inv (conj : K → K) (prm : Params K) (ip : Vec K → Vec K → K) (sqrt : K → K) (A : CRS K) (P : Vec K → Vec K)
+    (ws : Work K) (f x0 : Vec K) (nf : K) :
+    Inv ip sqrt A f (finalC conj prm ip sqrt A P ws f x0 nf) :=
+  loopN_inv _ _ _ (fun _ _ _ => head_inv ip sqrt A f _) _ _ (head_inv ip sqrt A f _)
+
 end FGMRES
 end Amgcl.Solver
